@@ -68,6 +68,61 @@ def _with_trailing(a):
     return None
 
 
+def _tuple_trailing(ty):
+    """`(A, B)` -> `(A, B,)` (tuples of two or more elements only: `(A,)` and `(A)` are different types)"""
+    ty = ty.strip()
+    if ty.startswith("(") and ty.endswith(")") and ", " in ty and not ty.endswith(",)"):
+        return ty[:-1] + ",)"
+    return None
+
+
+def _nested_trailing(a):
+    """trailing comma one list level below the attribute's own argument list:
+    -> (class, attribute) | None; class 'nested' (same tokens expected) or 'nested-tuple' (the comma is echoed
+    inside the type, compared modulo a comma before a closing parenthesis)"""
+    t = a["t"]
+    if t[0] == "flags":
+        new, hit = [], False
+        for m in t[1]:
+            if m.endswith(")") and "(" in m and not m.endswith("()") and not m.endswith(",)"):
+                new.append(m[:-1] + ",)")
+                hit = True
+            else:
+                new.append(m)
+        if hit:
+            return "nested", A(a["name"], "flags", new, t[2])
+    if t[0] == "convs":
+        if any(p[0] and p[1] for p in t[1]):
+            return "nested", A(a["name"], "convs", [(p[0], p[1], True) if p[0] and p[1] else p for p in t[1]], t[2])
+        tys = [(_tuple_trailing(p[1][0]) if p[0] is None else None) for p in t[1]]
+        if any(tys):
+            return "nested-tuple", A(a["name"], "convs",
+                                     [((None, [x]) if x else p) for p, x in zip(t[1], tys)], t[2])
+    if t[0] == "types":
+        tys = [_tuple_trailing(x) for x in t[1]]
+        if any(tys):
+            return "nested-tuple", A(a["name"], "types", [x or y for x, y in zip(tys, t[1])], t[2])
+    return None
+
+
+def _nested_tuple_in_convs(a):
+    t = a["t"]
+    if t[0] == "convs":
+        hit = False
+        parts = []
+        for p in t[1]:
+            if p[0] and p[1]:
+                tys = [_tuple_trailing(x) for x in p[1]]
+                if any(tys):
+                    hit = True
+                    parts.append((p[0], [x or y for x, y in zip(tys, p[1])]))
+                    continue
+            parts.append(p)
+        if hit:
+            return A(a["name"], "convs", parts, t[2])
+    return None
+
+
 def _reversed_inside(a):
     t = a["t"]
     if t[0] == "types" and len(t[1]) >= 2:
@@ -166,6 +221,33 @@ def rewrites(derive, it):
                 hit = True
         if hit:
             yield "trailing-comma-" + cls, n, "exact"
+    # trailing commas one level down: inside not(..), owned(..)/ref(..)/ref_mut(..), inside listed tuple types
+    for cls in ("nested", "nested-tuple"):
+        n = clone(it)
+        hit = False
+        for pos, k, a in _each(derive, n):
+            w = _nested_trailing(a)
+            if w and w[0] == cls:
+                slot(n, pos)[k] = w[1]
+                hit = True
+            elif cls == "nested-tuple":
+                w2 = _nested_tuple_in_convs(a)
+                if w2:
+                    slot(n, pos)[k] = w2
+                    hit = True
+        if hit:
+            yield "trailing-comma-" + cls, n, ("exact" if cls == "nested" else "exact-tuples")
+    # and at both levels at once
+    n = clone(it)
+    hit = False
+    for pos, k, a in _each(derive, n):
+        w = _nested_trailing(a)
+        if w and w[0] == "nested":
+            o = _with_trailing(w[1])
+            slot(n, pos)[k] = o[1] if o and o[0] == "list" else w[1]
+            hit = True
+    if hit:
+        yield "trailing-comma-nested+outer", n, "exact"
     # order of independent attributes of one slot: every order of 2 and 3 repeated attributes
     for n in _permuted_slots(derive, it):
         yield "attr-order", n, "perm"
